@@ -9,7 +9,7 @@ LEVEL = 'model_checking'
 
 
 def items(tier):
-    out = tt.family_T(tier) + tt.family_H(tier) + tt.family_Q(tier) + tt.family_P(tier) + tt.family_R(tier)
+    out = tt.family_T(tier) + tt.family_H(tier) + tt.family_Q(tier) + tt.family_P(tier) + tt.family_R(tier) + tt.family_O(tier)
     return [(i,) + it for i, it in enumerate(out)]
 
 
@@ -35,6 +35,11 @@ def run_item(item, tier):
         run_batch(st, tt.build_R, payload, tt.T_ARGVS, Ws, f'R[{idx}]')
         sh, pre, e, h, hb = payload[0]
         st.sample({'family': 'R', 'function': tt.R_SHAPES[sh].format(k=0, pre=tt.R_PRE[pre], e=tt.R_EXPR[e], h=h, hb=tt.R_HB[hb])})
+    elif fam == 'O':
+        for order in payload:
+            run_program(st, tt.build_O(order), tt.O_ARGVS, [2], f'O{list(order)}')
+            st.add('cases')
+        st.sample({'family': 'O', 'call_order': [tt.O_FUNCS[i][1] for i in payload[0]]})
     elif fam == 'Q2':
         run_batch(st, tt.build_Q2, payload, tt.Q_ARGVS, Ws, f'Q2[{idx}]')
     elif fam == 'P':
@@ -58,6 +63,9 @@ def coverage(total, tier):
         'H': '20 try blocks (10 bodies x undo/stop): all ordered pairs in three shapes (straight line, loop run 3 times, you-function '
              'called twice) and ' + ('all triples' if tier == 'thorough' else 'triples over 6 blocks') + '; pairs preceded by calls of another you-function with its own '
              'try/stop and of the function itself (' + ('all' if tier == 'thorough' else '20 x 6') + '); x in 0,1,2',
+        'O': f'{len(tt.O_FUNCS)} you-functions of different kinds (try/stop, try/undo, preemptive and non-preemptive defeat callees, ??, value-returning try, '
+             'try in a loop, dynamic arrays around a try) called -- hence generated -- in every order of ' + ('every 5th permutation of every 5-subset' if tier == 'thorough' else 'every 4th 3-subset')
+             + ' plus all ordered pairs, the first two called again; x in 0,1,2',
         'Q': f'{len(tt.Q_LEFT)} left x {len(tt.Q_RIGHT)} right operands x {len(tt.Q_POS)} use positions '
              + ('(all)' if tier == 'thorough' else '(every 2nd, all for assignments to globals)') + f' + {len(tt.Q_OTHER)} bool/byte/constant-left-with-faulting-right shapes; x in 0,1,3',
         'R': f'{len(tt.R_SHAPES)} shapes of value-returning you-functions returning from inside a try x {len(tt.R_PRE)} prefixes x {len(tt.R_EXPR)} return '
